@@ -20,6 +20,21 @@ def const_diffs(ctx):
     return re.findall(r'\("([A-Za-z0-9_]+)", (\d+), (none|some (\d+))\)', out)
 
 
+def type_diffs(ctx):
+    """Names of the wire types whose regenerated descriptor differs from the RFC's, with both descriptors."""
+    import re
+    f = os.path.join(ctx.scratch, "types.lean")
+    open(f, "w").write("import GoNfsd.Gen.Xdr\nimport GoNfsd.Spec.Rfc1813\n"
+                       "#eval (GoNfsd.Spec.Rfc1813.types.filter fun r => (GoNfsd.Gen.Xdr.types.lookup r.1).map (fun t => reprStr t) != some (reprStr r.2)).map fun r =>\n"
+                       "  s!\"TYPEDIFF {r.1} RFC {reprStr r.2} CODE {(GoNfsd.Gen.Xdr.types.lookup r.1).map (fun t => reprStr t)}\"\n")
+    rc, out = vlib.run(["lake", "build", "GoNfsd.Gen.Xdr", "GoNfsd.Spec.Rfc1813"], cwd=vlib.LEAN, timeout=600)
+    if rc != 0:
+        return []
+    rc, out = vlib.run(["lake", "env", "lean", f], cwd=vlib.LEAN, timeout=600)
+    out = out.replace("\\n", " ").replace("\n", " ")
+    return re.findall(r'TYPEDIFF (\S+) RFC (.*?) CODE (.*?)(?="|$)', out)
+
+
 def run(ctx):
     with vlib.Lock():
         ok_go = ctx.phase(ctx.build_go)
@@ -28,6 +43,12 @@ def run(ctx):
             if ctx.phase(ctx.prove, MODULE) and ctx.phase(ctx.audit, MODULE) and ctx.tier == "thorough":
                 ctx.phase(ctx.leanchecker, MODULE)
             if any(b.kind == "proof" for b in ctx.breaks):
+                for name, want, got in type_diffs(ctx)[:5]:
+                    ctx.add_violation("type:" + name,
+                                      "wire type %s differs from RFC 1813: RFC %s, code %s" % (name, " ".join(want.split())[:300], " ".join(got.split())[:300]),
+                                      {"input": {"type": name, "rfc_descriptor": " ".join(want.split()), "code_descriptor": " ".join(got.split())},
+                                       "how": "regenerated descriptor table (Gen/Xdr.types) compared with the RFC transcription entry by entry; any value of this type on which the two "
+                                              "descriptors differ (a length between the two bounds, the arm or field concerned) is encoded or refused differently from the RFC"})
                 for name, want, got, gv in const_diffs(ctx)[:5]:
                     ctx.add_violation("const:" + name,
                                       "constant %s is %s in the code, %s in RFC 1813" % (name, gv if gv else "missing", want),
@@ -88,13 +109,13 @@ def run(ctx):
     vlib.finish(
         ctx, "proof",
         "Lean theorems: decode(encode v) = v for every descriptor and value (mutual induction, no bound); the descriptor and "
-        "procedure tables REGENERATED from nfs_xdr.go equal the tables transcribed from the RFC; oversize/truncated inputs refused. "
+        "procedure tables REGENERATED from nfs_xdr.go equal the tables transcribed from the RFC; oversize inputs refused; no proper prefix of an encoding decodes (truncated_rejected, every "
+        "descriptor); the decoder never looks past what it consumes; every decoded value re-encodes to the same length and decodes to itself (decoded_values_reencode). "
         "The codec model is tied to the real Xdr methods by correspondence on structured values and mutated byte strings.",
-        "per type: structured random values (every union arm, optional/list shape, boundary lengths) encoded and decoded by the "
+        "per type: structured random values (every union arm, optional/list shape, boundary lengths, one beyond each declared bound, and for unbounded strings lengths up to 70000) encoded and decoded by the "
         "real generated code and by the Lean codec with the RFC descriptors; each encoding mutated (truncate, bit flip, word "
         "overwrite, junk, dropped word) and decoded by both; distinct = distinct values / byte strings; all 28 registrations called",
         ["Spec/Rfc1813.lean is a transcription of RFC 1813's XDR text (go-rpcgen rfc1813/prot.x) made with tools/xspec.py",
          "Mountres3 (a result type) is excluded from the mutated-bytes stream: its decoder allocates the announced array length"],
-        pending=["enc_canonical_of_dec (decode then encode gives back the consumed bytes up to padding/boolean leniency)",
-                 "truncated_rejected in full (no proper prefix of an encoding decodes); proved for words, strings and opaques"],
+        pending=["byte-for-byte equality of decode-then-encode on inputs with canonical booleans and zero padding (proved: same length and same value on every accepted input, identity on what the encoder wrote)"],
         partial=[])
